@@ -10,6 +10,7 @@ import time
 HERE = os.path.dirname(os.path.abspath(__file__))
 VERIF = os.path.dirname(HERE)
 sys.path.insert(0, HERE)
+sys.path.insert(0, os.path.join(VERIF, 'units'))
 
 from rsx import ExtractError  # noqa: E402
 from vgen import Unit  # noqa: E402
@@ -40,7 +41,7 @@ def scan_trusted(text):
     lines = text.split('\n')
     for i, ln in enumerate(lines):
         code = ln.split('//')[0]
-        for key in ('external_body', 'assume_specification', 'assume(', 'admit(', '#[verifier::external', 'uninterp', 'axiom'):
+        for key in ('external_body', 'assume_specification', 'assume(', 'admit(', 'verifier::external]', 'external_type_specification', 'external_trait_specification', 'uninterp', 'axiom fn'):
             if key in code:
                 # name: next fn/struct identifier within 6 lines
                 nm = ''
@@ -88,6 +89,7 @@ def run_unit(name, repo, workdir, expanded=None, rlimit=30, bless=False, threads
         U = Unit(name, repo, expanded)
         mod.build(U)
         text, linemap = U.render()
+        labels = U.impl_labels
     except ExtractError as e:
         res['reason'] = 'extraction: %s' % e
         res['wall_s'] = time.time() - t0
@@ -132,6 +134,9 @@ def run_unit(name, repo, workdir, expanded=None, rlimit=30, bless=False, threads
         fn = f['function']
         if fn.startswith(prefix):
             fn = fn[len(prefix):]
+        mi = re.match(r'impl&%(\d+)::(.*)$', fn)
+        if mi and int(mi.group(1)) < len(labels):
+            fn = '<%s>::%s' % (labels[int(mi.group(1))], mi.group(2))
         key = '%s/%s' % (name, fn)
         ok = bool(f.get('success'))
         if key in obl:
